@@ -43,6 +43,8 @@ def cases(tier, seed):
                         out.append({"key": f"rand/{m}x{n}/r={r}/R={R}/P={P}/it={it}", "fn": "rand_qsvd", "m": m, "n": n, "r": r, "R": R, "P": P, "arg": it})
                     for v in range(2, 6):
                         out.append({"key": f"passeff/{m}x{n}/r={r}/R={R}/P={P}/v={v}", "fn": "pass_eff_qsvd", "m": m, "n": n, "r": r, "R": R, "P": P, "arg": v})
+    for c in out:
+        c["S"] = 4 if tier == "quick" else 16
     return out
 
 
@@ -57,7 +59,7 @@ def run_case(case, seed):
     nA = O.fro(A)
     Aq = G.to_quat(A)
     f = getattr(lib.qsvd, case["fn"])
-    S = 4
+    S = case.get("S", 4)
     fails = []
     evals = 0
     ok_runs = 0
